@@ -12,14 +12,14 @@ CLAIMS = {
              "step consumes exactly the supplied path on its own [t0,t1]; first-order consistency (collapsed drift and "
              "diffusion weight 1) of all ten step bodies as a polynomial identity in opaque f, g; Roessler's order "
              "conditions for the tableaus actually imported; advertised strong_order <= literature order per "
-             "(solver, noise type). The limit dt->0 itself is not decided.",
+             "(solver, noise type). The limit dt->0 itself is not decided. Derivative-free Milstein: finite difference at one time, and no O(h^1.5) bias per step (second-order weight of the difference quotient times E[v] vanishes).",
         note="Partial: decides the listed necessary conditions, not the behaviour 'converges at order p'. " + TRUSTED),
     "C02": dict(
         technique="ast formula canonicalisation against textbook formulas; exact rational tableau arithmetic",
         text="Euler and derivative-based Milstein steps equal their textbook formulas as polynomial identities in "
              "opaque F, G, GDG atoms (the property states this equality verbatim); Ito/Stratonovich v-term; weight-1 "
              "Stratonovich condition sum v_i c_i = 1/2 for every RK-type step and derivative-free Milstein; SRK "
-             "scheme form and 25 SRI / 8 SRA order conditions in exact rationals.",
+             "scheme form and 25 SRI / 8 SRA order conditions in exact rationals. Milstein operator is one Jacobian-vector product per diffusion column (a transposed product only for diagonal noise); derivative-free Milstein carries no O(h^1.5) bias.",
         note="Partial: Taylor agreement beyond these conditions for Heun/midpoint/log-ODE/reversible Heun is not "
              "decided. " + TRUSTED),
     "C03": dict(
@@ -27,14 +27,14 @@ CLAIMS = {
         text="Polynomial identities extracted from the source: children of a split sum to the parent (W additivity, "
              "Chen for H) in both arms; the multi-piece aggregation updates of W, H, A are Chen's relation; update "
              "order (H and A use the loop-carried W); antisymmetry of A; H->U with the query length; zero-length arm "
-             "returns fresh zeros; wrappers use an admissible (time map, output map) pair.",
+             "returns fresh zeros; wrappers use an admissible (time map, output map) pair. Tree search cuts every query exactly (integer and near-coincident orderings); zero-length results have the shapes of ordinary ones; split identities also in dyadic mode.",
         note="Partial: values after arbitrary histories rely on C05's structural rules; floating-point tolerance not "
              "decided. " + TRUSTED),
     "C04": dict(
         technique="ast formula canonicalisation with Gaussian bookkeeping (exact covariance of the split)",
         text="Exact covariance matrix of (W_L,H_L,W_R,H_R) computed from the extracted coefficients equals "
              "diag(l, l/12, r, r/12) identically in l, r; top-level scalings; seed separation of the noises; Davie / "
-             "Foster conditional mean and residual variance equal the prescribed formulas; noise at full shape.",
+             "Foster conditional mean and residual variance equal the prescribed formulas; noise at full shape. Split covariance also in dyadic mode with a rounded midpoint; aggregated Levy area has regression slope 1; quantisation grid no coarser than tol; 64-bit seeds.",
         note="Partial: the joint law over arbitrary interval sets follows from the split law by the Levy construction "
              "argument, which is on paper. " + TRUSTED),
     "C05": dict(
@@ -56,7 +56,7 @@ CLAIMS = {
         text="Bounded stack for every query history (acyclic stack-edge call graph with trampolined edges excluded), "
              "no AttributeError from split-only slots (typestate), strictly positive refinement bound (interval "
              "analysis), cache never above cache_size (path enumeration over a small model), sub-tolerance queries "
-             "short-circuited on quantised times, default Brownian motion spans the horizon.",
+             "short-circuited on quantised times, default Brownian motion spans the horizon. Every split request is dominated by a strict order on quantised values (no zero-length child, no child equal to its parent).",
         note="Termination of the trampolined search loops is not decided in general. " + TRUSTED),
     "C08": dict(
         technique="gradient-flow taint over def-use chains; create_graph / no_grad discipline at autograd sites",
@@ -69,41 +69,41 @@ CLAIMS = {
         text="sdeint_adjoint builds the same solver with the same arguments and calls the same integrate; "
              "autograd.Function argument/None arity and saved-tensor layout agree; the backward sweep covers every "
              "output interval and injects every output cotangent exactly once with reflected times; default adjoint "
-             "table total and valid.",
+             "table total and valid. Backward sweep for all-nonzero and trailing-zero cotangents; Function.apply arguments bound by role (compared by value); differentiated forward values are computed with a graph.",
         note="Partial: convergence of adjoint gradients as dt->0 is not decided. " + TRUSTED),
     "C10": dict(
         technique="ast formula canonicalisation: algebraic inverse and transpose of the reversible Heun step",
         text="AdjointReversibleHeun.step reconstructs the forward step exactly (polynomial identity in opaque f, g) "
              "and its cotangent updates are the transpose of the forward step's linear map; extras are saved for "
-             "backward exactly for this method pair.",
+             "backward exactly for this method pair. The backward sweep starts at ts[-1] whenever extras were saved; no left-over step of rounding-error length (exact-rational model of the last steps); time axis in the state's dtype.",
         note="Partial: the 1e-9 figure is floating point and not decided. " + TRUSTED),
     "C11": dict(
         technique="call-site lint over all autograd / forward-SDE calls of AdjointSDE; dispatch-table totality",
         text="Every forward-SDE call passes -t; state blocks negated; VJP wiring (inputs, grad_outputs, allow_unused); "
              "create_graph=True exactly where a derivative is differentiated again; no graph leaks when grad is "
-             "disabled; dispatch tables total over 2x4 with Ito non-additive cells selecting corrected drifts.",
+             "disabled; dispatch tables total over 2x4 with Ito non-additive cells selecting corrected drifts. misc.vjp / misc.jvp are evaluated from their own bodies on an autograd model; a forward value computed outside enable_grad may not be differentiated.",
         note="Partial: that the correction formulas are the mathematically right ones is not decided. " + TRUSTED),
     "C12": dict(
         technique="explicit-flow non-interference of output times; formula identity of the interpolant",
         text="Output times never flow into step arguments or the step size; next_t = min(curr_t + dt, ts[-1]); ys[0] "
              "is y0; linear_interp is the linear interpolant (polynomial identity) applied to the last two grid "
-             "states; list ts normalised to y0's dtype/device.",
+             "states; list ts normalised to y0's dtype/device. Implicit flows of the output time through branches; exact-rational model of the last steps (a genuine remainder stays a clipped step); float-exact reduction of the interpolation formula at its end points.",
         note="Bit-level equality is not decided. " + TRUSTED),
     "C13": dict(
         technique="effect analysis: no hidden state outside constructors; extra-state plumbing",
         text="No attribute/global store in any step, integrate, init_extra_solver_state or SDE-wrapper method other "
-             "than __init__; integrate returns the carried extra; sdeint uses extra_solver_state verbatim.",
+             "than __init__; integrate returns the carried extra; sdeint uses extra_solver_state verbatim. The value reported at a step end is the solver's state bit for bit (float-exact reduction); fixed-step arguments depend only on the restartable state.",
         note="Bit identity across chunks additionally needs C05 and float reasoning. " + TRUSTED),
     "C14": dict(
         technique="control-dependence + truth-table of the accept predicate; interval analysis of the controller",
         text="Accept is control-dependent on exactly 'err <= 1 or h <= dt_min' (truth table over 3x3 regions); error "
              "compares the full step with two chained half steps; accepted state is the two-half-step state; a "
-             "rejected step strictly shrinks (factor in [0.2, 0.94)); clamp to dt_min; estimate bounded away from 0.",
+             "rejected step strictly shrinks (factor in [0.2, 0.94)); clamp to dt_min; estimate bounded away from 0. The controller scales the length of the trial actually taken; trial intervals are never stretched beyond the controller's step (exact-rational models).",
         note="Partial: 'tightening tolerances reduces the true error' is not decided. " + TRUSTED),
     "C15": dict(
         technique="ast formula canonicalisation: reverse step composed with forward step is the identity",
         text="Running ReversibleHeun.step on the negated, time-reflected SDE with ReverseBrownian's extracted time "
-             "map and negated extras returns the forward inputs, as a polynomial identity in opaque f, g.",
+             "map and negated extras returns the forward inputs, as a polynomial identity in opaque f, g. The reversed solve walks the reflected grid: output times do not move step boundaries, no left-over rounding-size step, time axis in the state's dtype.",
         note="Numerical stability of the reverse recursion is not decided. " + TRUSTED),
     "C16": dict(
         technique="finite-domain evaluation of the registration logic over all 32 method subsets",
